@@ -645,10 +645,12 @@ func ruleSendCountGuards(c *Ctx, rule string) {
 		// find If on (numSent == 1)
 		var cnt FieldRef
 		var ifCount *ssa.If
-		for _, b := range fn.Blocks {
-			ifi, ok := b.Instrs[len(b.Instrs)-1].(*ssa.If)
+		// the test may sit in a private helper used only here (`if err := st.checkSendLocked(); err != nil { return err }`)
+		root := regionRoot(fn)
+		allInstrs(root, func(in ssa.Instruction) {
+			ifi, ok := in.(*ssa.If)
 			if !ok {
-				continue
+				return
 			}
 			if bo, ok := ifi.Cond.(*ssa.BinOp); ok && bo.Op == token.EQL {
 				if fr, _, isF := loadedField(bo.X); isF && fr.Type == rn.Obj().Name() {
@@ -657,20 +659,21 @@ func ruleSendCountGuards(c *Ctx, rule string) {
 					}
 				}
 			}
-		}
+		})
 		if ifCount == nil {
 			c.fail(rule, name+": second send on a non-streaming side refused", w.At(s), "no test 'messages sent == 1' on the way to the sender: a second SendMsg on a unary side is put on the wire")
 			continue
 		}
 		// the true edge must not reach the sender and must return a non-nil error
 		tb := ifCount.Block().Succs[0]
-		esc := tb.Instrs[0] == ssa.Instruction(s.(ssa.Instruction)) || pathAvoiding(fn, tb.Instrs[0], func(in ssa.Instruction) bool { return in == s.(ssa.Instruction) }, nil) != nil
+		esc := tb.Instrs[0] == ssa.Instruction(s.(ssa.Instruction)) || pathAvoiding(root, tb.Instrs[0], func(in ssa.Instruction) bool { return in == s.(ssa.Instruction) }, nil) != nil
 		c.check(!esc && reaches(ifCount, s.(ssa.Instruction)), rule, name+": second send on a non-streaming side refused", w.At(ifCount), "count == 1 edge cannot reach the sender", "the 'already sent one message' edge still reaches the sender (or the test does not dominate it)")
 		// that If is on the non-streaming edge of a test of a streaming flag
 		var flag FieldRef
 		pol := false
 		for _, f := range boolFactsAt(ifCount) {
-			if fr, _, isF := loadedField(f.V); isF && fr.Type == rn.Obj().Name() && !f.True {
+			// other flags known false here (the 'already finished' test in front) are not the streaming flag
+			if fr, _, isF := loadedField(f.V); isF && fr.Type == rn.Obj().Name() && !f.True && (!pol || c.streamingFlagOrigin(fr) != "") {
 				flag, pol = fr, true
 			}
 		}
@@ -682,16 +685,44 @@ func ruleSendCountGuards(c *Ctx, rule string) {
 		}
 		// counter incremented between
 		inc := false
-		for _, st := range storesToField(fn, cnt) {
-			if b, ok := st.Val.(*ssa.BinOp); ok && b.Op == token.ADD && isFieldLoad(b.X, cnt) && dominates(st, s.(ssa.Instruction)) && reaches(ifCount, st) && !reaches(st, ifCount) {
-				inc = true
+		// where a failed send is remembered (a sticky error field tested nil in front of the sender: every later send is
+		// refused anyway), the counter may also be incremented behind the send, on every path on which the send succeeded
+		stickyGuard := false
+		for _, f := range factsAt(s.(ssa.Instruction)) {
+			if x, op, y, ok := cmpFact(f); ok && op == token.EQL && isNilConst(y) && isErrorType(x.Type()) {
+				if fr, _, isF := loadedField(x); isF && fr.Type == rn.Obj().Name() {
+					stickyGuard = true
+				}
 			}
 		}
-		c.check(inc, rule, name+": counter incremented before sending", w.At(s), cnt.Field+"++ dominates the send", "the sent-message counter is not incremented on the way to the sender: the guard never triggers")
+		for _, st := range storesToField(root, cnt) {
+			b, ok := st.Val.(*ssa.BinOp)
+			if !ok || b.Op != token.ADD || !isFieldLoad(b.X, cnt) || !reaches(ifCount, st) || reaches(st, ifCount) {
+				continue
+			}
+			if dominates(st, s.(ssa.Instruction)) {
+				inc = true
+				continue
+			}
+			if sc, isCall := s.(*ssa.Call); isCall && stickyGuard && dominates(s.(ssa.Instruction), st) {
+				failEdge := func(pred, succ *ssa.BasicBlock) bool {
+					ef, has := edgeFact(pred, succ)
+					if !has {
+						return false
+					}
+					x, op, y, okc := cmpFact(normFact(ef))
+					return okc && op == token.NEQ && isNilConst(y) && isErrorOfCall(x, sc)
+				}
+				if pathAvoidingE(root, sc, isExit, func(in ssa.Instruction) bool { return in == ssa.Instruction(st) }, failEdge) == nil {
+					inc = true
+				}
+			}
+		}
+		c.check(inc, rule, name+": counter incremented before sending", w.At(s), cnt.Field+"++ dominates the send (or follows every successful send where failed sends are sticky)", "the sent-message counter is not incremented on the way to the sender: the guard never triggers")
 		c.check(len(perStreamLocks(intersect(lf.MustAt(ifCount), lf.MustAt(s.(ssa.Instruction))), rn)) > 0, rule, name+": test, increment and send in one critical section", w.At(s), "write mutex held throughout", "the count test and the send are not under one per-stream mutex")
 		// error on the refused edge is non-nil
 		okErr := false
-		for _, ret := range returnsOf(fn) {
+		for _, ret := range returnsOf(ifCount.Parent()) {
 			if !(tb.Dominates(ret.Block()) || tb == ret.Block()) {
 				continue
 			}
@@ -1242,6 +1273,54 @@ func ruleContextKeys(c *Ctx, r2, r3 string) {
 	}
 }
 
+// ruleAccessorsOwnKeyOnly (C17.8): what an accessor answers depends on nothing but the value under its own key.
+func ruleAccessorsOwnKeyOnly(c *Ctx, rule string) {
+	c.rule(rule, "each context accessor (tunnel metadata incoming / outgoing, tunnel channel) looks up exactly one key in the given context, its own — the answer does not depend on what else the context carries (a handler's context legitimately carries both the incoming key of its tunnel and, when it forwards calls, the client-side keys of the stream it creates)")
+	w := c.W
+	n := 0
+	for _, name := range []string{"TunnelMetadataFromIncomingContext", "TunnelMetadataFromOutgoingContext", "TunnelChannelFromContext"} {
+		fn := w.Func(name)
+		if fn == nil {
+			c.fail(rule, name, "-", "accessor not found")
+			continue
+		}
+		own := w.accessorKey(name)
+		seen := map[string]bool{}
+		keyName := func(v ssa.Value) string {
+			if mi, ok := stripConvKeepIface(v).(*ssa.MakeInterface); ok {
+				if n := namedOf(mi.X.Type()); n != nil && n.Obj().Pkg() != nil && n.Obj().Pkg().Path() == rootPath {
+					return n.Obj().Name()
+				}
+			}
+			return ""
+		}
+		w.instrsThroughHelpers(fn, func(in ssa.Instruction) {
+			vc, ok := in.(*ssa.Call)
+			if !ok || !vc.Call.IsInvoke() || vc.Call.Method.Name() != "Value" || !strings.HasSuffix(types.TypeString(vc.Call.Value.Type(), nil), "context.Context") {
+				return
+			}
+			k := keyName(vc.Call.Args[0])
+			if p, isP := stripConv(vc.Call.Args[0]).(*ssa.Parameter); isP && k == "" {
+				if b, bound := paramBindings[p]; bound {
+					k = keyName(b)
+				}
+			}
+			if k == "" {
+				k = desc(vc.Call.Args[0])
+			}
+			seen[k] = true
+		})
+		var ks []string
+		for k := range seen {
+			ks = append(ks, k)
+		}
+		sort.Strings(ks)
+		n++
+		c.check(len(ks) == 1 && own != "" && ks[0] == own, rule, name+": consults its own key only", posOf(w, fn), "looks up "+strings.Join(ks, ", "), "the accessor looks up "+strings.Join(ks, ", ")+" (its own key is "+own+"): its answer depends on other values in the context — a stream a handler creates on a tunnel (gateway, relay) no longer reports its channel / opening metadata, or reports another tunnel's")
+	}
+	c.floor(rule, n, 3, "context accessors")
+}
+
 func ruleChannelIdentity(c *Ctx, r4, r5 string) {
 	c.rule(r4, "the WithTunnelChannel call option receives the channel the stream is actually created on; the pooled channel passes context, method and options unchanged to the picked tunnel")
 	c.rule(r5, "opening metadata: each of the four opening paths captures the tunnel's opening metadata from the context the carrier was opened with (outgoing on the opening side, incoming on the accepting side) and hands it to the endpoint it constructs")
@@ -1463,16 +1542,21 @@ func ruleTimeoutParser(c *Ctx, r1, r2, r3 string) {
 				continue
 			}
 			mk, isMk := origin(lk.X).(*ssa.MakeMap)
+			good := true
 			if !isMk {
-				continue
+				// a package-level table (`var timeoutUnits = map[byte]time.Duration{…}`): built once by the package
+				// initialiser and only ever read
+				mk = w.readOnlyGlobalMap(lk.X)
+				if mk == nil {
+					continue
+				}
 			}
 			tbl := map[int64]int64{}
-			good := true
 			for _, r := range *mk.Referrers() {
 				if mu, isMU := r.(*ssa.MapUpdate); isMU {
 					k, okK := constInt(mu.Key)
 					v, okV := constInt(mu.Value)
-					if !okK || !okV || !dominates(mu, lk) {
+					if !okK || !okV || (mu.Parent() == lk.Parent() && !dominates(mu, lk)) {
 						good = false
 					}
 					tbl[k] = v
@@ -1947,3 +2031,87 @@ func publishedByOnce(accs []*FieldAccess) (string, bool) {
 // streamFlagRole: the role a field of the client stream plays among the two streaming flags (today: by its name, as the
 // server-side flag rules do).
 func (c *Ctx) streamFlagRole(field string) string { return field }
+
+// readOnlyGlobalMap: v is a load of a package-level map variable that the package initialiser fills from a map literal and
+// that nothing else writes (no other store to the variable, and every other use of its value is a lookup, len or range):
+// the literal's MakeMap.
+func (w *World) readOnlyGlobalMap(v ssa.Value) *ssa.MakeMap {
+	u, ok := stripConv(v).(*ssa.UnOp)
+	if !ok || u.Op != token.MUL {
+		return nil
+	}
+	g, ok := u.X.(*ssa.Global)
+	if !ok || g.Pkg == nil {
+		return nil
+	}
+	var mk *ssa.MakeMap
+	nStores := 0
+	bad := false
+	fns := append([]*ssa.Function{}, w.Funcs...)
+	if init := g.Pkg.Func("init"); init != nil {
+		fns = append(fns, init)
+	}
+	seen := map[*ssa.Function]bool{}
+	for _, f := range fns {
+		if seen[f] {
+			continue
+		}
+		seen[f] = true
+		allInstrsLocal(f, func(in ssa.Instruction) {
+			// any other use of the variable's address (taken, passed on) could write it
+			for _, op := range in.Operands(nil) {
+				if *op == ssa.Value(g) {
+					st, isSt := in.(*ssa.Store)
+					ld, isLd := in.(*ssa.UnOp)
+					if !(isSt && st.Addr == ssa.Value(g) && st.Val != ssa.Value(g)) && !(isLd && ld.Op == token.MUL) {
+						bad = true
+					}
+				}
+			}
+			switch x := in.(type) {
+			case *ssa.Store:
+				if x.Addr == ssa.Value(g) {
+					nStores++
+					if m, isM := x.Val.(*ssa.MakeMap); isM && f.Name() == "init" {
+						mk = m
+					} else {
+						bad = true
+					}
+				}
+			case *ssa.UnOp:
+				if x.Op == token.MUL && x.X == ssa.Value(g) {
+					for _, r := range *x.Referrers() {
+						switch y := r.(type) {
+						case *ssa.Lookup, *ssa.Range, *ssa.DebugRef:
+						case *ssa.Call:
+							if calleeName(y) != "builtin.len" {
+								bad = true
+							}
+						default:
+							bad = true
+						}
+					}
+				}
+			}
+		})
+	}
+	if bad || nStores != 1 || mk == nil {
+		return nil
+	}
+	// the literal itself is only filled and stored
+	for _, r := range *mk.Referrers() {
+		switch x := r.(type) {
+		case *ssa.MapUpdate, *ssa.DebugRef:
+		case *ssa.Store:
+			if x.Addr != ssa.Value(g) {
+				return nil
+			}
+		default:
+			return nil
+		}
+	}
+	return mk
+}
+
+// stripConvKeepIface: v itself (MakeInterface is what carries a context key's type; stripConv would remove it).
+func stripConvKeepIface(v ssa.Value) ssa.Value { return v }
